@@ -392,6 +392,67 @@ fn run_shuttle(plan: &Plan, out: &mut Outcome) -> (Vec<Vec<CallOut>>, Vec<CallOu
     (calls, sent)
 }
 
+/// Fallback, NOT simulation: the callers are real OS threads released together and left to
+/// the operating system. Used only for executions the simulator had to give up interleaving
+/// (a blocking primitive without a hook blocks the baton holder for real). Whatever it
+/// observes is real — an output that differs from the reference is a violation however the
+/// threads were scheduled — but it is not replayable exactly; a finding from here is
+/// labelled `uncontrolled_concurrency` and its replay repeats the plan until it shows again.
+fn run_free(plan: &Plan, out: &mut Outcome) -> (Vec<Vec<CallOut>>, Vec<CallOut>) {
+    let slots: Slots = Arc::new(Mutex::new(
+        plan.threads.iter().map(|c| vec![None; c.len()]).collect(),
+    ));
+    seams::set_mode(seams::Mode::Free);
+    let barrier = Arc::new(std::sync::Barrier::new(plan.threads.len()));
+    let mut handles = Vec::new();
+    for (t, calls) in plan.threads.iter().enumerate() {
+        let calls = calls.clone();
+        let s3 = slots.clone();
+        let b = barrier.clone();
+        handles.push(
+            std::thread::Builder::new()
+                .stack_size(STACK)
+                .spawn(move || {
+                    crate::threads::set_tid(t + 1);
+                    b.wait();
+                    for (k, c) in calls.iter().enumerate() {
+                        let o = run_call(t + 1, k, c);
+                        s3.lock().unwrap()[t][k] = Some(o);
+                    }
+                })
+                .expect("spawn caller thread"),
+        );
+    }
+    for h in handles {
+        if h.join().is_err() {
+            out.harness_error = Some(format!("a caller thread panicked outside a call: {}", seams::last_panic()));
+        }
+    }
+    seams::set_mode(seams::Mode::Sequential);
+    let fill = |o: Option<CallOut>| {
+        o.unwrap_or(CallOut {
+            obs: Obs::noreturn("call did not return".into()),
+            records: 0,
+            fault_fired: false,
+            overlapped: false,
+        })
+    };
+    let calls: Vec<Vec<CallOut>> = slots
+        .lock()
+        .unwrap()
+        .iter()
+        .map(|v| v.iter().cloned().map(fill).collect())
+        .collect();
+    seams::set_seq_task(0);
+    let sentinel = plan
+        .sentinel
+        .iter()
+        .enumerate()
+        .map(|(k, c)| run_call(0, k, c))
+        .collect();
+    (calls, sentinel)
+}
+
 /// Interleaved execution on real OS threads under the baton scheduler (threads.rs).
 fn run_threads(plan: &Plan, out: &mut Outcome) -> (Vec<Vec<CallOut>>, Vec<CallOut>) {
     use crate::threads;
@@ -529,7 +590,9 @@ pub fn run_plan_here(plan: &Plan) -> Outcome {
             let mut out = Outcome::default();
             out.canary = seams::canary();
             state().ev(&format!("canary {}", out.canary));
-            let (calls, sentinel) = if plan2.shuttle && plan2.engine == "threads" {
+            let (calls, sentinel) = if plan2.shuttle && plan2.engine == "free" {
+                run_free(&plan2, &mut out)
+            } else if plan2.shuttle && plan2.engine == "threads" {
                 run_threads(&plan2, &mut out)
             } else if plan2.shuttle {
                 run_shuttle(&plan2, &mut out)
